@@ -24,7 +24,7 @@ if seeded:
     tbl = "\n| seeded change | round | what it needs to manifest | confirmed | quick check before strengthening | after |\n|---|---|---|---|---|---|\n"
     for m in seeded:
         d = json.loads(m.read_text())
-        rnd = d.get("round", 2 if d["id"].startswith("seed2") else 1)
+        rnd = d.get("round") or (int(d["id"][4]) if d["id"][4].isdigit() else 1)
         before = d.get("checks_initial") or d.get("checks")
         tbl += (f"| {d['id']} | {rnd} | {d.get('needs', '').replace('|', '/')} | {'yes' if d.get('confirmed') else 'no'} | "
                 f"{verdicts(before)} | {verdicts(d.get('checks'))} |\n")
